@@ -12,7 +12,7 @@ import itertools
 
 from ..loader import AnalysisError, norm, calls_in, walk_no_nested, call_name
 from ..ta import Expr, Array, Facts, normal, show_normal
-from ..ta_front import Interp, Obj
+from ..ta_front import Index, Interp, Obj
 from . import tensors
 from .tensors import LS
 
@@ -82,10 +82,45 @@ def check(run, prog, tier):
     run.rule("C01-I", "'secularized' is a statement about the data in force: whoever recalculates the tensor clears the mark, so "
                       "that a later secularize() acts on the new data (stored-result analysis, switch form)", minimum=2)
     rule_I(run, prog)
+    run.rule("C01-J", "the non-secular non-equilibrium Foerster tensor preserves trace and Hermiticity (index algebra on the reference "
+                      "routine with opaque integrals)", minimum=2)
+    rule_J(run, prog)
     rule_A(run, prog)
     rule_B(run, prog)
     rule_C(run, prog)
     rule_D(run, prog)
+
+
+def rule_J(run, prog):
+    """The non-equilibrium Foerster tensor with all non-secular terms (_nsc_reference_implementation, also behind the kernel
+    form) is assembled from the resonance couplings J and the integrals F[a,b,c,d] handed in as a function.  The routine is
+    interpreted by the index algebra with J real and symmetric and F opaque: sum_a R[t,a,a,c,d] = 0 and
+    conj(R[t,a,b,c,d]) = R[t,b,a,d,c] must be polynomial identities in J and F.  The trace identity rests on the
+    cancellation of the 'operator part' RR[d,c] = -sum_e J[d,e] J[e,c] F[e,e,c,d] against the gain terms - with the last
+    two indices of F exchanged it fails on every coherence column as soon as one site is coupled to two others."""
+    rid = "C01-J"
+    f = prog.func(LS + "nefoerstertensor._nsc_reference_implementation")
+    prog.consulted.add(f.relpath)
+    F = Array.opaque("F", 4)
+
+    def hook(it, func, call, name, args, kwargs):
+        nm = (name or "").split(".")[-1]
+        if nm == "fce" and len(args) >= 5:
+            ix = args[1:5]
+            if not all(isinstance(x, Index) for x in ix):
+                raise AnalysisError("_nsc_reference_implementation: the integrals are no longer called with four site indices")
+            return F.at(*[x.name for x in ix])
+        if nm == "time":
+            return Expr.const(0)
+        return NotImplemented
+    HH = Array.opaque("H", 2)
+    it = Interp(prog, lenient=True, call_hook=hook)
+    KK = it.call_function(f, [Expr.factor("Na"), Expr.factor("Nt"), HH, Array.opaque("tt", 1), Array.opaque("gt", 2),
+                              Array.opaque("ll", 1), "fce"])
+    facts = Facts(symmetric=["H"], real=["H"])
+    tensors.tensor_identities(run, rid, "nefoerstertensor._nsc_reference_implementation", KK, facts, f.loc(), time_rank=1,
+                              what="non-secular non-equilibrium Foerster tensor",
+                              assumptions=["the resonance couplings (off-diagonal part of the Hamiltonian) are real and symmetric"])
 
 
 def rule_I(run, prog):
